@@ -182,6 +182,13 @@ def run(ctx, mod):
         if nontrivial(r["impl"]):
             distinct.add(hashlib.sha1(r["input"].encode()).hexdigest())
     stats = trace_stats([r["impl"] for r in res])
+    try:
+        clear = runtime.run_model(progs, mode="clear")
+        stats["programs_clear_of_known_findings"] = sum(1 for c in clear if c.strip() == "true")
+        stats["programs_clear_note"] = ("runs satisfying SpecK.clearTop (evaluated by the driver): covered end to end by "
+                                        "SpecK.model_refines_pure_spec (mechanism model allowed by the specification proper)")
+    except Exception as e:
+        stats["programs_clear_of_known_findings"] = "not evaluated: %r" % (e,)
     stats["programs_touching_known_findings"] = dict(known)
     stats["corpus_programs"] = len(corpus)
     samples = []
